@@ -48,6 +48,10 @@ Init ==
   \/ c = [op |-> "options", tracing |-> 0]
   \/ \E n \in {0, 5, 300} : c = [op |-> "auth", token |-> <<"rep", 200, n>>, tracing |-> 0]
   \/ \E k \in 0..3 : c = [op |-> "startup", options |-> [i \in 1..k |-> <<<<"rep", 64 + i, i>>, <<"rep", 48 + i, 3 * i>>>>], tracing |-> 0]
+  \* [string]s that are not ASCII: the length prefix counts bytes, not characters (2-, 3- and 4-byte UTF-8 sequences)
+  \/ c = [op |-> "startup", tracing |-> 0,
+          options |-> << <<<<65, 80, 80>>, <<122, 97, 197, 188, 195, 179, 197, 130, 196, 135, 45, 240, 159, 166, 128>>>>,
+                         <<<<197, 188, 226, 130, 172>>, <<"rep", 66, 3>>>> >>]
 Next == UNCHANGED c
 Spec == Init /\ [][Next]_c
 Emit == PrintT(<<"CASE", ToJson(c)>>)
